@@ -24,11 +24,11 @@ PROPS["C12"] = {
 PROPS["C13"] = {
     "streams": ["life-shut", "life-trail", "c07gate", "sess-save", "c07rm"],
     # of the rollback-mitigation gate stream only the scripts that close the stream matter here: waiting events are released WITHOUT delivery
-    # of the save-protocol stream only the steps where a second save runs into an in-flight one (the shape of dcp.close()'s final save
-    # arriving while a periodic save is slow): it must wait and then save
+    # of the save-protocol stream only the micro-steps of savers (a second save running into an in-flight one is the shape of dcp.close()'s
+    # final save arriving while a periodic save is slow): it must wait, and what it then writes must cover what was settled before it was called
     # of the rollback-mitigation polling stream only the Stop()-during-a-slow-round scenarios: stream.Close calls rollbackMitigation.Stop() first,
     # so a Stop() that hangs (or polling that goes on after it) is a shutdown that is not clean (model + theorems: Model/RmStop, Props/C13Rm)
-    "op_filter": {"c07gate": r" c( |$)", "sess-save": r"^sv \d+ lockwait", "c07rm": r"^rm-stop-slow "},
+    "op_filter": {"c07gate": r" c( |$)", "sess-save": r"^sv \d+ ", "c07rm": r"^rm-stop-slow "},
     "clauses": ["C13", "C07.not-released", "C07.unsafe-delivery", "C05.concurrent-save-dropped"], "audit": ["C13.lean", "C13Run.lean", "C13Rm.lean"], "modules": ["GoDcp.Props.C13", "GoDcp.Props.C13Run", "GoDcp.Props.C13Rm"], "retry_divergence": 2, "timeout": 900,
     "rule": _LIFE_RULE, "assumptions": _LIFE_ASSUME + ["Close() = the stream-level part of dcp.close (Save when checkpoint.type=auto, then stream.Close); bounded time is measured by the harness, not proved"],
     "design_ref": "DESIGN.md §7 C13, §6 F4 F6",
